@@ -773,6 +773,16 @@ func (tr *Trans) dynType(v Term) Term {
 
 func (tr *Trans) makeInterface(x *ssa.MakeInterface) {
 	v := tr.val(x.X)
+	if v.Addr != nil && v.Addr.Kind == AddrCell {
+		// the address of a local cell is boxed (json.Unmarshal(b, &v), fmt.Sscan(&n), ...): whoever receives the interface
+		// value may write the cell, so every later unknown effect also havocs it
+		if tr.g.escaped == nil {
+			tr.g.escaped = map[string]bool{}
+		}
+		for _, c := range comps(v.Addr.T) {
+			tr.g.escaped[v.Addr.Key+c.Suffix] = true
+		}
+	}
 	ct := x.X.Type()
 	id := tr.g.typeID(ct)
 	var r Term
